@@ -122,6 +122,7 @@ func readPhase(run *evid.Run, idx int) {
 	u := model.SmallUniverse()
 	m0, m1 := ocimem.New(), ocimem.New()
 	shape := []string{"equal", "disjoint-repos", "overlapping", "one-empty"}[idx%4]
+	var polySubjects []string
 	switch shape {
 	case "equal":
 		seed := rng.Uint64()
@@ -151,6 +152,21 @@ func readPhase(run *evid.Run, idx int) {
 	case "one-empty":
 		populate(rng, u, m1, 30, u.Repos)
 	}
+	if shape == "overlapping" || shape == "equal" {
+		// one manifest (same bytes, same digest) that each member recorded under a different media type:
+		// it is valid both as an image manifest and as an index, and names a subject. The union lists it once.
+		cfg := []byte("{}")
+		subj := model.Digest([]byte("subject of the polyglot referrer"))
+		poly := []byte(fmt.Sprintf(`{"schemaVersion":2,"config":{"mediaType":"application/octet-stream","digest":%q,"size":2},"layers":[],"manifests":[],"subject":{"mediaType":%q,"digest":%q,"size":7}}`, model.Digest(cfg), model.MTImage, subj))
+		for mi, reg := range []ociregistry.Interface{m0, m1} {
+			env := model.NewEnv(reg)
+			env.Exec(&model.Op{Kind: "PushBlob", Repo: "a", Data: cfg, Digest: model.Digest(cfg), Size: 2, MediaType: "application/octet-stream"})
+			if o := env.Exec(&model.Op{Kind: "PushManifest", Repo: "a", Data: poly, MediaType: []string{model.MTImage, model.MTIndex}[mi]}); o.OK {
+				run.Count("polyglot_referrers_pushed", 1)
+			}
+		}
+		polySubjects = append(polySubjects, subj)
+	}
 	useq := model.NewEnv(ociunify.New(m0, m1, &ociunify.Options{ReadPolicy: ociunify.ReadSequential}))
 	ucon := model.NewEnv(ociunify.New(m0, m1, &ociunify.Options{ReadPolicy: ociunify.ReadConcurrent}))
 	d0, d1 := model.NewEnv(m0), model.NewEnv(m1)
@@ -163,6 +179,9 @@ func readPhase(run *evid.Run, idx int) {
 		ops = append(ops, &model.Op{Kind: "Tags", Repo: r, StartAfter: "t"}, &model.Op{Kind: "Tags", Repo: r, StopAfter: 1})
 	}
 	ops = append(ops, &model.Op{Kind: "Repositories", StartAfter: "a/"}, &model.Op{Kind: "Repositories", StopAfter: 1})
+	for _, sd := range polySubjects {
+		ops = append(ops, &model.Op{Kind: "Referrers", Repo: "a", Digest: sd})
+	}
 	run.Eval(1)
 	for _, op := range ops {
 		o0, o1 := d0.Exec(op), d1.Exec(op)
